@@ -56,6 +56,8 @@ KINDS = [
     "mixnum", "mixarr", "mixnumstr", "mixboolint",
     # 2-D entries that are not C-contiguous in memory (transposed views, Fortran order)
     "ragged2F", "arr2F",
+    # equal-shaped arrays with unset values *inside* them (reals: NaN normalisation; text: no marker)
+    "arrinner", "arrinnerstr",
 ]
 PATTERNS = ["none", "some", "all", "first", "last", "allbutone"]
 LEVELS = ["block", "assembly", "component", "core"]
@@ -140,6 +142,10 @@ def make_collection(kind, n, pattern, seedv):
             return g.choice(fl) if g.next() % 3 == 0 else [g.choice(fl) for _ in range(g.randint(2, 3))]
         if kind == "raggednpscalar":
             return np.int32(g.choice(ints)) if g.next() % 3 == 0 else [g.choice(ints) for _ in range(g.randint(2, 3))]
+        if kind == "arrinner":
+            return [None if g.next() % 3 == 0 else g.choice(fl) for _ in range(3)]
+        if kind == "arrinnerstr":
+            return [None if g.next() % 3 == 0 else g.choice(strs[:3]) for _ in range(2)]
         if kind == "ragged2F":
             r, c_ = g.randint(2, 3), g.randint(2, 4)
             return np.array([[g.choice(fl) for _ in range(r)] for _ in range(c_)]).T  # shape (r, c_), a transposed view
@@ -210,6 +216,8 @@ def same(written, got, real_kind, promote=False):
     if w_unset or g_unset:
         if isinstance(written, (list, tuple, np.ndarray)) and len(written) == 0 and got is None:
             return None  # empty entry among ragged ones may come back unset
+        if isinstance(written, (list, tuple, np.ndarray)) and got is None and all(x is None for x in JaggedFlat(written)):
+            return None  # an entry holding nothing but unset values is an unset entry
         if isinstance(written, (list, tuple, np.ndarray)) and real_kind and got is None:
             a = np.asarray(written, dtype=float)
             if a.size and np.isnan(a).all():
@@ -281,7 +289,7 @@ def JaggedFlat(x):
         yield x
 
 
-REAL_KINDS = {"ragged2F", "arr2F", "float", "floatx", "npfloat32", "arr1", "arr2", "arrnan", "nested", "tuple", "ragged", "ragged2", "raggedscalar", "raggedempty", "dict", "dictx"}
+REAL_KINDS = {"arrinner", "ragged2F", "arr2F", "float", "floatx", "npfloat32", "arr1", "arr2", "arrnan", "nested", "tuple", "ragged", "ragged2", "raggedscalar", "raggedempty", "dict", "dictx"}
 
 
 def is_sentinel(v):
@@ -319,10 +327,10 @@ def compare_collection(st, written, got):
     return out
 
 
-def judge(st, t, path, bad, known, findings):
+def judge(st, t, path, bad, known, findings, written=()):
     """Raise for the first mismatch that is not a listed finding; count the listed ones."""
     for j, why in bad:
-        det = {"kind": st["kind"], "pattern": st["pattern"], "why": why.split(":")[0].split(" wrote")[0]}
+        det = {"kind": st["kind"], "pattern": st["pattern"], "why": why.split(":")[0].split(" wrote")[0], "anyUnset": any(w is None for w in written)}
         f = driver.match_finding(findings, PROPERTY, {"oracle": "C05.value", "detail": det})
         if f is not None:
             known[f["id"]] = known.get(f["id"], 0) + 1
@@ -511,7 +519,7 @@ def writer(plan, scratch, log, second=False):
                 out["cells"].append(cell + ("accepted",))
                 log.add("put", t, st["kind"], st["pattern"], "accepted-direct")
                 try:
-                    judge(st, t, "direct", bad, out["known"], findings)
+                    judge(st, t, "direct", bad, out["known"], findings, coll)
                 except OracleFailure as e:
                     out["violation"] = (e.oracle, e.msg, e.detail)
                     return out
@@ -635,7 +643,7 @@ def execute(plan):
                 written = [v for _, v in exp]
                 got = [by_sn[sn].p[st["param"]] for sn, _ in exp]
                 bad = compare_collection(st, written, got)
-                judge(st, t, "writeToDB/load", bad, known, findings)
+                judge(st, t, "writeToDB/load", bad, known, findings, written)
         cells = out["cells"]
         probes = {}
         for c in cells:
